@@ -111,7 +111,7 @@ func c06Model(curState, curBy string, sh c06Shape) (bool, string, string) {
 func c06Shapes() []c06Shape {
 	var out []c06Shape
 	states := append([]string{"-"}, c06States...)
-	states = append(states, "bogus")
+	states = append(states, "bogus", "Done", "DOING", " todo", "canceled ")
 	for _, cmd := range []string{"set", "new"} {
 		for _, mode := range []string{"json", "flags", "bodystdin"} {
 			claims := []string{"-", "a", "b"}
